@@ -125,7 +125,7 @@ def damaged_sweeps(chk, tool, asan, model_exe, work, tier, stats):
         plan = []     # (binary, sanitize, cmd, mode, mutants, tag)
         plan.append((tool, False, ['status'], 'conf', ex, 'status'))
         if quick:
-            plan.append((asan, True, ['status'], 'conf', ex if si in (0, 2, 3) else sample(ex, 6), 'asan_status'))
+            plan.append((asan, True, ['status'], 'conf', ex if si in (0, 3) else sample(ex, 6), 'asan_status'))
             plan.append((asan, True, None, 'noconf', ex if si == 4 else sample(ex, 6), 'asan_noconf'))
             for cmd in ('diff', 'check', 'sync', 'list'):
                 plan.append((tool, False, [cmd], 'conf', sample(ex, 8), cmd))
@@ -158,7 +158,7 @@ def damaged_sweeps(chk, tool, asan, model_exe, work, tier, stats):
         distinct += len(ex) + len(by) + len(rnd)
         # model <-> C on the loader: `snapraid -C` and the extracted CodecModel.decode (no configuration) on the valid file and on
         # every mutant: accept/reject must agree (else MODEL-DRIFT); the reject kind (end of file / other) is compared and counted
-        allm = ex + by + rnd
+        allm = ex + (sample(by, 3) if quick else by) + rnd
         bad, n, cl, per = sw.run(tool, base, allm, None, mode='noconf', want=True)
         total_runs += n
         shape_runs += n
